@@ -8,6 +8,14 @@ def dispatch (j : Json) : R Json := do
   | "interp" => opInterp j
   | "interp_cache" => opInterpCache j
   | "model" => opModel j
+  | "teststat" => opTeststat j
+  | "asym" => opAsym j
+  | "layout" => opLayout j
+  | "npinterp" => opNpInterp j
+  | "gridlimit" => opGridLimit j
+  | "bracket" => opBracket j
+  | "empirical" => opEmpirical j
+  | "fitplumb" => opFitPlumb j
   | _ => throw s!"unknown op {op}"
 
 partial def loop (hin hout : IO.FS.Stream) : IO Unit := do
